@@ -84,7 +84,7 @@ prop("C13", module="MW.Props.C13", title="treasury swaps and spending", skip_sta
 prop("C05", module="MW.Props.C05", title="pro-rata, at-most-once withdrawal",
      variants=["liquid_unstake", "withdraw", "submit_batch", "receive_unstaked_tokens"],
      state_keys=["requests", "batches"], pure=["multiply_ratio"],
-     weights={"unstake": 22, "withdraw": 22, "submit": 10, "deliver": 12, "stake": 14, "advance": 10},
+     weights={"unstake": 22, "withdraw": 22, "submit": 10, "deliver": 12, "stake": 14, "advance": 10, "longrun": 0.5},
      profile={"legacy": 0.03})
 
 prop("C06", module="MW.Props.C06", title="batch lifecycle and timing",
@@ -117,7 +117,7 @@ prop("C14", module="MW.Props.C14", title="well-formed configuration, sectional u
 
 prop("C17", module="MW.Props.C17", title="complete pagination, consistent per-user index",
      variants=[], state_keys=["batches", "requests", "ibc_queue", "reply_queue", "pending"],
-     weights={"unstake": 22, "withdraw": 16, "submit": 12, "deliver": 10, "stake": 14, "ack": 8, "timeout": 4},
+     weights={"unstake": 22, "withdraw": 16, "submit": 12, "deliver": 10, "stake": 14, "ack": 8, "timeout": 4, "longrun": 1.2},
      profile={"queries": 0.5, "legacy": 0.02},
      assumptions=["the model answers UnstakeRequests by filtering one request list (the specification); the upkeep of the real secondary index is covered differentially"])
 
